@@ -128,6 +128,11 @@ def check_tree(res, sp, top, state, i, b, prev_seen, label):
         except Exception as e:  # noqa
             res.violation("reader-fails-after-kill", "DigitalRFReader fails with an undocumented error", inp,
                           "ValueError(no channels)", repr(e)[:200])
+    # ---- ... and so does a reader given this tree as the SECOND of two top-level directories of the channel (an
+    #      archive of an earlier period first): the directory of a killed recorder contributes its finalized files,
+    #      or nothing, and never makes the reader fail
+    if os.path.exists(props) and i % 3 == 0:
+        multidir_after_kill(res, sp, b, top, finals, inp)
     if seen is not None:
         if not (seen == finals):
             res.violation("reader-not-exactly-finalized", "reader does not return exactly the samples of the finalized files",
@@ -138,6 +143,37 @@ def check_tree(res, sp, top, state, i, b, prev_seen, label):
     res.case(("crash", sp["name"], i, label), nontrivial=True)
     res.count("crash_points")
     return seen if seen is not None else prev_seen
+
+
+def multidir_after_kill(res, sp, b, top, finals, inp):
+    import digital_rf
+    if not hasattr(b, "archive_top"):
+        per_file = max(1, sp["file_cadence_ms"] * sp["srn"] // (1000 * sp["srd"]))
+        back = 50 * per_file + 7
+        if sp["start"] - back < 0:
+            b.archive_top = None
+        else:
+            spa = dict(sp, start=sp["start"] - back, writes=[[0, min(2 * per_file + 3, 3000)]], name=sp["name"] + "-archive")
+            spa.pop("apis", None)
+            b.archive_top = os.path.join(b.work, "archive")
+            P.run_writer(spa, b.archive_top)
+            _r, sa = P.reader_pass(b.archive_top, spa)
+            b.archive_seen = P.Samples(sa.g - back, sa.v)
+    if not b.archive_top:
+        return
+    res.count("reader over [archive, killed recorder's directory]")
+    try:
+        r = digital_rf.DigitalRFReader([b.archive_top, top])
+        _r, seen = P.reader_pass(top, sp, reader=r)
+        r.close()
+    except Exception as e:  # noqa
+        res.violation("multidir-reader-fails-after-kill", "a DigitalRFReader over two top-level directories fails when the second "
+                      "is the tree a kill leaves", dict(inp, second_of_two_directories=True), "archive + finalized samples", repr(e)[:200])
+        return
+    want = b.archive_seen.union(finals)
+    if not (seen == want):
+        res.violation("multidir-reader-not-exactly-finalized", "a reader over [archive, killed tree] does not return the archive plus "
+                      "exactly the finalized samples", dict(inp, second_of_two_directories=True), want.brief(), seen.brief())
 
 
 def one_recording(res, sp):
